@@ -1,6 +1,7 @@
 """The configuration for the myst parser."""
 
 import dataclasses as dc
+import re
 from collections.abc import Callable, Iterable, Iterator, Sequence
 from importlib import import_module
 from typing import (
@@ -599,7 +600,9 @@ def read_topmatter(text: str | Iterator[str]) -> dict[str, Any] | None:
         return None
     top_matter = []
     for line in text:
-        if line.startswith(("---", "...")):
+        # as for the Markdown front-matter rule (which decides what is rendered),
+        # the closing marker may be indented by up to three spaces
+        if re.match(r" {0,3}(---|\.\.\.)", line):
             break
         # strip the line terminator only: trailing spaces are significant in a
         # block scalar (e.g. a Markdown hard line break in a substitution)
